@@ -17,7 +17,7 @@ import numpy as np
 from ..refmodel import ref_stats
 from ..sim import gen_sched, HarnessError
 from ..util import A, L, Result, sig6, digest, compositions, random_composition
-from .common import SimRec, gen_data, gen_simplex, trim
+from .common import SimRec, gen_data, gen_simplex, trim, tail
 
 ID = "C02"
 CHUNK = 25
@@ -99,14 +99,14 @@ def _gen_merge(rng, nb):
 
 def gen_case(rng, tier, n=None, blocks=None, merge=None):
     n = n or rng.choice([1, 2, 3, 4, 5, 6, 8, 10, 15, 20, 30, 40, 17, 33, 65, 70, 129, 140, 260])
-    d = rng.randint(1, 4)
+    d = tail(rng, 1, 4, [9, 17, 33, 65], 0.04)
     X = gen_data(rng, n, d)
     if rng.random() < 0.2:  # far-tail rows: tens to thousands of standard deviations away
         sd = X.std(axis=0) + 1e-3 * (np.abs(X).max(axis=0) + 1e-12)
         for _ in range(rng.randint(1, 2)):
             X[rng.randrange(n)] += rng.choice([30, 300, 3000]) * sd * rng.choice([-1, 1])
         X = sig6(X)
-    c = rng.randint(1, 4)
+    c = tail(rng, 1, 4, [9, 17, 33, 65, 129], 0.04)
     gmm = _gen_machine(rng, X, c)
     if blocks is None:
         if rng.random() < 0.5:
@@ -130,13 +130,13 @@ def gen_case(rng, tier, n=None, blocks=None, merge=None):
     for b in blocks:
         if len(b) == 0:
             backends.append({"type": "np"})
-        elif rng.random() < (0.3 if n <= 40 else 0.02):
+        elif rng.random() < ((0.3 if n <= 40 else 0.02) if c <= 8 else 0.03):
             backends.append({"type": "da", "chunks": random_composition(rng, len(b))})
         elif len(b) == 1 and rng.random() < 0.3:
             backends.append({"type": "np1d"})
         else:
             backends.append({"type": "np"})
-    lazy = rng.random() < 0.3 and all(len(b) > 0 for b in blocks) and n <= 40
+    lazy = rng.random() < 0.3 and all(len(b) > 0 for b in blocks) and n <= 40 and c <= 8
     if lazy:
         # lazily merged statistics must all be Dask-backed: adding an uncomputed Dask-backed
         # container into a NumPy-backed one in place is refused by dask itself (ufunc out=)
